@@ -27,6 +27,13 @@ type Thread struct {
 	top      *frame
 	isTimer  bool
 	noSched  int               // >0: inside an atomic region (no scheduling points)
+	yielding  bool
+	pendW     *waiter  // blocked channel operation (its completion is part of the state)
+	pendSel   *selWait // blocked select
+	spawnFn   Value
+	spawnArgs []Value
+	timer     *Timer
+	timerGen  int
 	held     map[*syncObj]bool // locks held (lockset)
 	vc       map[int]int       // vector clock (happens-before for race check)
 }
@@ -206,6 +213,8 @@ func classifyAbort(r interface{}) (string, string) {
 		return "fuel", r.msg
 	case exitPath:
 		return "exit", ""
+	case prunedPath:
+		return "pruned", ""
 	case engineBug:
 		return "bug", fmt.Sprintf("%v at %s", r.r, r.where)
 	}
@@ -236,6 +245,17 @@ func (st *State) schedPoint(what string) {
 	st.reschedule(false)
 }
 
+// yieldPoint is a voluntary scheduling point (runtime.Gosched, time.Sleep,
+// nondet.Yield): switching away here is not a preemption.
+func (st *State) yieldPoint() {
+	if len(st.threads) == 1 || st.cur.noSched > 0 {
+		return
+	}
+	st.cur.yielding = true
+	st.reschedule(false)
+	st.cur.yielding = false
+}
+
 // block suspends the current thread until cond holds.
 func (st *State) block(cond func() bool, what string) {
 	if cond() {
@@ -254,6 +274,14 @@ func (st *State) block(cond func() bool, what string) {
 
 func (st *State) reschedule(selfBlocked bool) {
 	self := st.cur
+	if st.eng.visited != nil && st.pos >= len(st.prefix) && st.concrete == nil {
+		if selfBlocked && !self.done {
+			// the blocked thread's wait condition is part of its program point
+		}
+		if st.seenState() {
+			panic(prunedPath{})
+		}
+	}
 	var opts []*Thread
 	selfEnabled := !selfBlocked && !self.done
 	if selfEnabled {
@@ -273,14 +301,15 @@ func (st *State) reschedule(selfBlocked bool) {
 		return
 	}
 	var next *Thread
-	if selfEnabled && st.preemptions >= st.eng.cfg.Preemptions {
+	free := self.yielding
+	if selfEnabled && !free && st.preemptions >= st.eng.cfg.Preemptions {
 		next = self
 	} else if len(opts) == 1 {
 		next = opts[0]
 	} else {
 		i := st.choose(len(opts), "sched")
 		next = opts[i]
-		if selfEnabled && next != self {
+		if selfEnabled && next != self && !free {
 			st.preemptions++
 		}
 	}
@@ -342,9 +371,10 @@ func (st *State) goStmt(fr *frame, instr *ssa.Go, fn Value, args []Value) {
 	case *Closure:
 		name = f.Fn.Name()
 	}
-	st.spawn(fmt.Sprintf("g%d:%s", len(st.threads), name), func() {
+	t := st.spawn(fmt.Sprintf("g%d:%s", len(st.threads), name), func() {
 		st.callFunc(nil, instr.Pos(), fn, args)
 	})
+	t.spawnFn, t.spawnArgs = fn, args
 	st.schedPoint("go")
 }
 
@@ -488,7 +518,9 @@ func (st *State) chanSend(ch *Chan, v Value) {
 	w := &waiter{th: st.cur, val: v, ch: ch, sender: true}
 	ch.sendq = append(ch.sendq, w)
 	st.hbRelease(&ch.vc)
+	st.cur.pendW = w
 	st.block(func() bool { return w.done || ch.closed }, fmt.Sprintf("chan send (chan#%d)", ch.id))
+	st.cur.pendW = nil
 	if !w.done {
 		w.done = true
 		panic(goPanic{mkRuntimeError("send on closed channel")})
@@ -505,7 +537,9 @@ func (st *State) chanRecv(ch *Chan) (Value, bool) {
 	}
 	w := &waiter{th: st.cur, ch: ch}
 	ch.recvq = append(ch.recvq, w)
+	st.cur.pendW = w
 	st.block(func() bool { return w.done || ch.closed }, fmt.Sprintf("chan receive (chan#%d)", ch.id))
+	st.cur.pendW = nil
 	st.hbAcquire(ch.vc)
 	if w.done {
 		return w.val, w.ok
@@ -606,7 +640,9 @@ func (st *State) selectOp(fr *frame, instr *ssa.Select) Value {
 		}
 		return -1
 	}
+	st.cur.pendSel = sh
 	st.block(func() bool { return sh.done || closedCase() >= 0 }, "select")
+	st.cur.pendSel = nil
 	if sh.done {
 		c := cases[sh.caseIdx]
 		if !c.send {
@@ -765,6 +801,7 @@ func (st *State) armTimer(tm *Timer, d int64) {
 		}
 	})
 	t.isTimer = true
+	t.timer, t.timerGen = tm, gen
 	t.waitCond = func() bool { return true }
 	// a stopped or re-armed timer's thread is no longer schedulable
 	t.waitCond = func() bool {
